@@ -54,6 +54,17 @@ enum Op {
     QuintantVertices(u32),
     Boundary(u64, i32),
     LookupNan(u8, i32),
+    Hex(u64),
+    Meta(i32),
+    Uncompact(u64),
+    Contains(u64, u64, u64),
+    PentagonOf(u64),
+    Segments(u8, u32),
+    LonLatRoundTrip(u64, u64),
+    Normalize(u64, u64),
+    PentagonVertices(u64, u32, u8, u32),
+    ShapeOps(u64, u64),
+    VectorOps(u64, u64, u64),
 }
 
 fn orient(o: u8) -> Orientation {
@@ -144,6 +155,69 @@ fn exec(op: &Op) -> Result<Vec<u64>, String> {
             };
             vec![a5::lonlat_to_cell(p, *res)?]
         }
+        Op::Hex(v) => {
+            let h = a5::u64_to_hex(*v);
+            let back = a5::hex_to_u64(&h)?;
+            let bad = a5::hex_to_u64("zz").is_err() as u64;
+            vec![back, h.len() as u64, bad, a5::get_resolution(*v) as i64 as u64]
+        }
+        Op::Meta(r) => vec![a5::cell_area(*r).to_bits(), a5::get_num_cells(*r), a5::core::cell_info::get_num_children(*r, *r + 2) as u64, a5::core::serialization::get_stride((*r).clamp(0, 30))],
+        Op::Uncompact(c) => {
+            let r = a5::get_resolution(*c);
+            let mut v = a5::uncompact(&[*c], r + 1)?;
+            v.push(a5::uncompact(&[*c], r - 1).is_err() as u64);
+            v
+        }
+        Op::Contains(c, lon, lat) => {
+            let d = a5::core::serialization::deserialize(*c)?;
+            vec![a5::core::cell::a5cell_contains_point(&d, LonLat::new(f(*lon), f(*lat)))?.to_bits()]
+        }
+        Op::PentagonOf(c) => {
+            let d = a5::core::serialization::deserialize(*c)?;
+            let p = a5::core::cell::get_pentagon(&d)?;
+            let mut v: Vec<u64> = p.get_vertices_vec().iter().flat_map(|q| [q.x().to_bits(), q.y().to_bits()]).collect();
+            v.push(p.get_area().to_bits());
+            v
+        }
+        Op::Segments(o, q) => {
+            let origin = &a5::core::origin::get_origins()[*o as usize % 12];
+            let (s1, _) = a5::core::origin::quintant_to_segment(*q as usize % 5, origin);
+            let (q1, _) = a5::core::origin::segment_to_quintant(s1, origin);
+            vec![s1 as u64, q1 as u64, a5::core::origin::is_nearest_origin(origin.axis, origin) as u64]
+        }
+        Op::LonLatRoundTrip(lon, lat) => {
+            use a5::core::coordinate_transforms as ct;
+            let sp = ct::from_lon_lat(LonLat::new(f(*lon), f(*lat)));
+            let back = ct::to_lon_lat(sp);
+            let au = a5::projections::AuthalicProjection;
+            vec![sp.theta().get().to_bits(), sp.phi().get().to_bits(), back.longitude().to_bits(), back.latitude().to_bits(), au.inverse(au.forward(Radians::new_unchecked(f(*lat).to_radians()))).get().to_bits()]
+        }
+        Op::Normalize(lon, lat) => {
+            let c: Vec<LonLat> = (0..4).map(|i| LonLat::new(f(*lon) + i as f64 * 0.7, (f(*lat) + i as f64 * 0.3).clamp(-90.0, 90.0))).collect();
+            a5::core::coordinate_transforms::normalize_longitudes(c).iter().flat_map(|p| [p.longitude().to_bits(), p.latitude().to_bits()]).collect()
+        }
+        Op::PentagonVertices(s0, res, o, q) => {
+            let a = s_to_anchor(*s0, *res as usize, orient(*o));
+            let p = a5::core::tiling::get_pentagon_vertices(*res as i32, *q as usize % 5, &a);
+            p.get_vertices_vec().iter().flat_map(|v| [v.x().to_bits(), v.y().to_bits()]).collect()
+        }
+        Op::ShapeOps(x, y) => {
+            let mut sh = a5::core::tiling::get_face_vertices();
+            let p = Face::new(f(*x), f(*y));
+            let mut v = vec![sh.contains_point(p).to_bits(), sh.get_center().x().to_bits()];
+            sh.scale(0.5);
+            sh.translate(p);
+            v.extend(sh.split_edges(2).get_vertices_vec().iter().flat_map(|q| [q.x().to_bits(), q.y().to_bits()]));
+            v
+        }
+        Op::VectorOps(a, b, t) => {
+            use a5::coordinate_systems::Cartesian;
+            use a5::utils::vector as vu;
+            let ca = Cartesian::new(f(*a).cos(), f(*a).sin(), 0.0);
+            let cb = Cartesian::new(0.0, f(*b).cos(), f(*b).sin());
+            let s1 = vu::slerp(ca, cb, f(*t));
+            vec![s1.x().to_bits(), s1.y().to_bits(), s1.z().to_bits(), vu::vector_difference(ca, cb).to_bits(), vu::triple_product(ca, cb, s1).to_bits()]
+        }
         Op::TlForward(t, p, o) => {
             let sp = Spherical::new(Radians::new_unchecked(f(*t)), Radians::new_unchecked(f(*p)));
             let r = DodecahedronProjection::get_thread_local().forward(sp, *o)?;
@@ -203,6 +277,22 @@ fn contention_plans(r: &mut R) -> Vec<Vec<Op>> {
 }
 
 fn any_op(r: &mut R, allow_tl: bool) -> Op {
+    if r.below(3) == 0 {
+        // the rest of the public surface, all cheap under the interpreter
+        return match r.below(if allow_tl { 11 } else { 9 }) {
+            0 => Op::Hex(r.next()),
+            1 => Op::Meta(r.below(31) as i32),
+            2 => Op::Uncompact(cell_at(r.next(), r.next(), 2 + r.below(4) as u32)),
+            3 => Op::Segments(r.below(12) as u8, r.below(5) as u32),
+            4 => Op::LonLatRoundTrip((r.unit() * 360.0 - 180.0).to_bits(), (r.unit() * 170.0 - 85.0).to_bits()),
+            5 => Op::Normalize((r.unit() * 10.0 + 175.0).to_bits(), (r.unit() * 100.0 - 50.0).to_bits()),
+            6 => Op::PentagonVertices(r.below(256), 4, r.below(6) as u8, r.below(5) as u32),
+            7 => Op::ShapeOps((r.unit() - 0.5).to_bits(), (r.unit() - 0.5).to_bits()),
+            8 => Op::VectorOps(r.unit().to_bits(), r.unit().to_bits(), r.unit().to_bits()),
+            9 => Op::PentagonOf(cell_at(r.next(), r.next(), 2 + r.below(4) as u32)),
+            _ => Op::Contains(cell_at(r.next(), r.next(), 2 + r.below(3) as u32), (r.unit() * 360.0 - 180.0).to_bits(), (r.unit() * 170.0 - 85.0).to_bits()),
+        };
+    }
     match r.below(if allow_tl { 16 } else { 12 }) {
         0 => Op::Res0,
         1 => Op::Children(res0_cell(r.next())),
